@@ -1129,6 +1129,7 @@ func TestVerifC20Net(t *testing.T) {
 	e.mu.Lock()
 	arrived, accepted, verdicts, viol := 0, 0, 0, 0
 	perPhase := map[string]int{}
+	perClass := map[string]int{}
 	for _, m := range e.msgs {
 		verdicts += len(m.Verdicts)
 		arr := m.CRaw
@@ -1178,7 +1179,8 @@ func TestVerifC20Net(t *testing.T) {
 			}
 		}
 		viol++
-		if viol <= 200 {
+		perClass[class]++
+		if perClass[class] <= 25 {
 			out.Emit(vc.M{"kind": "violation", "predicate": "RelayedOnlyIfAccepted", "site": "libp2p", "class": class,
 				"phase": m.Phase, "beh": m.Scen, "msg": m.Name, "id": m.ID, "cls": m.Cls, "slot": m.Slot,
 				"verdicts": m.Verdicts, "b_deliver": m.BDeliver != 0, "b_reason": m.BReason,
@@ -1200,6 +1202,7 @@ func TestVerifC20Net(t *testing.T) {
 	summary["messages"], summary["arrived"], summary["arrived_accepted"], summary["b_verdicts"] = len(e.msgs), arrived, accepted, verdicts
 	summary["arrived_per_phase"] = perPhase
 	summary["violations"] = viol
+	summary["violations_per_class"] = perClass
 	summary["trace_blocks"], summary["trace_events"] = nblocks, trace.Count()
 	if c20Gate != nil {
 		summary["gate_points"] = c20Gate.points
